@@ -77,7 +77,7 @@ MAPS = {
 }
 
 
-def make_geometries(cuqi, rng, n, want):
+def make_geometries(cuqi, rng, n, want, N_override=None):
     """geometry of kind `want` with parameter dimension about n"""
     G = cuqi.geometry
     if want == "cont1d":
@@ -119,7 +119,7 @@ def make_geometries(cuqi, rng, n, want):
                    lambda g, gr: f"map:{g}:0:{gr}:{kt}:{tok_bool(imap)}:{pi}", False, shape, pd,
                    nonneg=(kind == "sq"), has_f2p=imap, flat1d=(base != "F"))
     if want in ("step", "kl", "custom"):
-        N = n + int(rng.randint(1, 4))
+        N = n + int(rng.randint(1, 4)) if N_override is None else N_override
         if want == "step":
             obj = G.StepExpansion(np.arange(N, dtype=float), n_steps=n)
             exact = True
@@ -446,20 +446,44 @@ def run(ctx):
         lines.append(line); pending.append((len(lines) - 1, key, desc, impl, tol))
 
     oracle_jobs = []
+    # pinned configurations (always run first): the input classes of the known findings and of DESIGN's plan
+    #   (model, domain, range, n, geometry-gradient style, range on the domain's grid, n_range)
+    PINNED = [("linmat", "discrete", "discrete", 4, None, False, 3),          # Discrete(4) == Discrete(3) raises
+              ("gen-gd-k", "discrete", "discrete", 3, None, False, 2),
+              ("linmat", "default1d", "kl", 4, None, True, 3),                # default geometry == KLExpansion on the same grid
+              ("gen-jac-k", "cont1d", "step", 4, None, True, 2),
+              ("gen-gw-k", "map-sq-1-1d", "cont1d", 3, "d", False, 3),         # stale is_par flag after the geometry gradient
+              ("gen-gw-k", "map-aff-1-1d", "cont1d", 3, "d", False, 2),
+              ("gen-gw-k", "step", "default1d", 2, "d", False, 3),
+              ("gen-gw-s", "custom", "cont1d", 2, "d", False, 2),
+              ("pde-gw", "map-sq-1-1d", "cont1d", 3, "d", False, 2),
+              ("gen-gw-k", "map-sq-1-1d", "cont1d", 3, "x", False, 3),
+              ("gen-jac-k", "map-cube-0-1d", "discrete", 3, "s", False, 2)]
     for ci in range(nconf):
         # ---------------------------------------------------------------- configuration
+        pinned = PINNED[ci] if ci < len(PINNED) else None
         mk = MODEL_KINDS[ci % len(MODEL_KINDS)] if ci < 3 * len(MODEL_KINDS) else str(rng.choice(MODEL_KINDS))
         dk = DOMAIN_KINDS[(ci // 2) % len(DOMAIN_KINDS)] if ci < 2 * len(DOMAIN_KINDS) else str(rng.choice(DOMAIN_KINDS))
         rk = str(rng.choice(RANGE_KINDS, p=[.25, .1, .15, .1, .1, .05, .1, .1, .05]))
         n = int(rng.randint(2, 5))
         if mk.startswith("heat"):
             rk = str(rng.choice(["cont1d", "discrete", "default1d"]))
+        if pinned:
+            mk, dk, rk, n = pinned[:4]
         D = make_geometries(cuqi, rng, n, dk)
         if D is None:
             continue
         nDf = int(np.prod(D.fun_shape))
         nr = nDf if mk.startswith("heat") else int(rng.randint(2, 5))
-        R = make_geometries(cuqi, rng, nr, rk)
+        if pinned:
+            nr = pinned[6]
+        R = make_geometries(cuqi, rng, nr, rk, N_override=(nDf if pinned and pinned[5] else None))
+        if pinned:
+            pass
+        elif dk in ("cont1d", "default1d") and ci % 7 == 3 and not mk.startswith("heat") and nDf >= 3:
+            # an expansion range geometry on the *same grid* as the domain (`Continuous1D(N) == KLExpansion(N-grid)` territory)
+            rk = "kl" if ci % 2 else "step"
+            R = make_geometries(cuqi, rng, nDf - 1, rk, N_override=nDf)
         if R is None:
             continue
         if mk.startswith("heat") and int(np.prod(R.fun_shape)) != nDf:
@@ -477,8 +501,14 @@ def run(ctx):
         if mk.startswith("pde") and not D.flat1d:
             D = make_geometries(cuqi, rng, n, "cont1d")
         # optional user `gradient` attribute on the domain geometry (never on default geometries given as int/tuple)
-        if not isinstance(D.obj, (int, tuple)) and rng.rand() < (0.75 if not D.ident else 0.15):
-            install_geom_gradient(D, str(rng.choice(["s", "d", "x"], p=[.3, .45, .25])))
+        if pinned:
+            if pinned[4]:
+                install_geom_gradient(D, pinned[4])
+        elif not isinstance(D.obj, (int, tuple)) and rng.rand() < (0.75 if not D.ident else 0.15):
+            st_ = str(rng.choice(["s", "d", "x"], p=[.3, .45, .25]))
+            if st_ == "d" and ("-F" in D.label or ",F)" in D.label):
+                st_ = "x"   # flat C-order function values cannot express ravel(order='F') of an already flat array (docs/C12.md)
+            install_geom_gradient(D, st_)
         Dobj, Robj = D.obj, R.obj
         try:
             M = build_model(cuqi, rng, mk, D, R, Dobj, Robj)
@@ -491,22 +521,21 @@ def run(ctx):
         def eq_eval(a_, b_):
             try:
                 with quiet():
-                    return bool(a_ == b_)
-            except Exception:
-                return None
-        e1, e2 = eq_eval(Dg, Rg), eq_eval(Rg, Dg)
-        eqr = tok_bool(e1 is None) + tok_bool(e2 is None)     # evaluating the comparison raises
-        eq_raises = "1" in eqr
-        if e1 is not None and e2 is not None and e1 != e2:
-            ctx.note(f"asymmetric geometry equality {D.label} vs {R.label}; configuration skipped")
-            continue
-        gD, gR = 0, (0 if (e1 or e2) else 1)
+                    return "T" if bool(a_ == b_) else "F"
+            except IndexError:
+                return "I"
+            except KeyError:
+                return "K"
+        eqr = eq_eval(Dg, Rg) + eq_eval(Rg, Dg)     # value of `D == R` and of `R == D` on the implementation
+        eq_raises = ("I" in eqr) or ("K" in eqr)
+        loose_eq = eqr[0] == "T" and type(Dg) is not type(Rg)      # `D == R` holds between geometries of different classes
+        gD, gR = 0, 1
         Dtok, Rtok = D.token(gD), R.token(gR)
         foreign = cuqi.geometry.Continuous1D(np.arange(D.par_dim) + 0.5)   # unequal to everything else here, comparisons never raise
         canon = Canon(cuqi, [(Dg, gD), (Rg, gR), (foreign, 2)])
         exact = D.exact and R.exact and M.exact
         tol = 0.0 if False else (1e-12 if exact else TOL)
-        conf = {"model": mk, "domain": D.label, "domain_gradient": D.gradstyle, "range": R.label, "n": D.par_dim, "seed_index": ci, "geometry_eq_raises": eq_raises}
+        conf = {"model": mk, "domain": D.label, "domain_gradient": D.gradstyle, "range": R.label, "n": D.par_dim, "seed_index": ci, "geometry_eq_raises": eq_raises, "loose_geometry_eq": loose_eq}
         hist[f"{mk.split('-')[0]}|{D.family}{'+grad' if D.gradstyle else ''}|{R.family}"] = hist.get(f"{mk.split('-')[0]}|{D.family}{'+grad' if D.gradstyle else ''}|{R.family}", 0) + 1
 
         # ---------------------------------------------------------------- inputs
@@ -723,12 +752,12 @@ def oracle_forward(ctx, cuqi, verdicts, conf, M, D, R, model, Dg, Rg, x, fx, Xs,
                 ctx.fail(key + ":refusal", desc, f"{ref_err} (range geometry has no fun2par)", short(c))
             continue
         if c[0] == "err":
-            sfx = ":geometry-eq-raises" if (conf.get("geometry_eq_raises") and c[1] == "IndexError") else ""
+            sfx = ":geometry-eq-raises" if (conf.get("geometry_eq_raises") and c[1] in ("IndexError", "KeyError")) else ""
             ctx.fail(key + ":raised" + sfx, desc, ref.tolist(), c[1], "forward raised on an in-scope input")
             continue
         data = c[1] if c[0] == "nd" else c[3] if c[0] == "arr" else None
         if data is None or not veq(data, ref, tol):
-            ctx.fail(key + ":value", desc, ref.tolist(), short(c), "output differs from R.fun2par(F(D.par2fun(x)))")
+            ctx.fail(key + ":value" + (":loose-geometry-eq" if conf.get("loose_geometry_eq") and kind.startswith("arr") else ""), desc, ref.tolist(), short(c), "output differs from R.fun2par(F(D.par2fun(x)))")
         want_arr = kind.startswith("arr")
         if want_arr and not (c[0] == "arr" and c[1] is True and c[2] == gR):
             ctx.fail(key + ":wrap", desc, "CUQIarray flagged parameters on the range geometry", short(c), "output is not wrapped like the input")
@@ -813,7 +842,7 @@ def oracle_gradient(ctx, cuqi, verdicts, conf, M, D, R, model, Dg, Rg, x, fx, d,
         if ref is None:
             continue
         if c[0] == "err":
-            sfx = ":geometry-eq-raises" if (conf.get("geometry_eq_raises") and c[1] == "IndexError") else ""
+            sfx = ":geometry-eq-raises" if (conf.get("geometry_eq_raises") and c[1] in ("IndexError", "KeyError")) else ""
             ctx.fail(key + ":raised" + sfx, desc, ref.tolist(), c[1], "gradient raised although every ingredient is available")
             continue
         data = c[1] if c[0] == "nd" else c[3]
